@@ -5,7 +5,7 @@
     very net [pipeline_completes] talks about can be run (extracted) next to the crate: values given
     to f, number of Iterator::next calls, completion. *)
 
-From CB Require Import ProofLib Spec Chain Programs Pipe Flow Liveness.
+From CB Require Import ProofLib Spec Chain Programs Pipe Flow LivenessG.
 From CB Require Inv_for_each Inv_from_iter.
 
 Set Implicit Arguments.
@@ -37,13 +37,22 @@ Definition nat_of_val (v : val) : nat := match v with VN x => x | VT _ => 0 end.
 Definition count_nexts (tr : list event) : nat :=
   length (filter (fun e => match e with EObs (ONext _) => true | _ => false end) tr).
 
-(** run the net to rest: (arguments of f, Iterator::next calls, for_each saw the end, at rest) *)
-Definition net_pipe_run (p : list stage) (xs : list nat) : option (list nat * nat * bool * bool) :=
+(** the iterator the harness builds: the items of [xs], then (if [inf = Some b]) b, b+1, .. for ever *)
+Definition it_of (xs : list nat) (inf : option nat) (k : nat) : option val :=
+  match nth_error xs k with
+  | Some x => Some (VN x)
+  | None => match inf with Some b => Some (VN (b + (k - length xs))) | None => None end
+  end.
+
+(** run the net to rest, at most [steps_max ust B] transfers:
+    (arguments of f, Iterator::next calls, for_each saw the end, at rest) *)
+Definition net_pipe_run (p : list stage) (xs : list nat) (inf : option nat) (B : nat)
+  : option (list nat * nat * bool * bool) :=
   match ustages_of p with
   | None => None
   | Some ust =>
-      let xv := map VN xs in
-      let N := taus (steps_max xv ust) (net_step (NP xv ust) (kick ust)) in
+      let it := it_of xs inf in
+      let N := taus (steps_max ust B) (net_step (NP it ust) (kick ust)) in
       let calls := match nth_error (nodes N) (last ust) with
                    | Some nf => map nat_of_val (Inv_for_each.user_calls (ntrace nf))
                    | None => []
@@ -101,25 +110,76 @@ Proof.
     destruct s; cbn in Eu; inversion Eu; subst u; cbn; auto.
 Qed.
 
+Lemma it_of_fin xs k : it_of xs None k = nth_error (map VN xs) k.
+Proof.
+  unfold it_of. rewrite nth_error_map. destruct (nth_error xs k); reflexivity.
+Qed.
+
 (** for every pipeline of unary stages (take counts >= 1) over every finite input, the runner ends
     at rest, for_each has seen the end, and f was called on exactly the list function *)
 Theorem net_pipe_run_correct p xs us :
   ustages_of p = Some us ->
   Forall (fun s => match s with StTake n => 1 <= n | _ => True end) p ->
-  exists nx, net_pipe_run p xs = Some (sem p xs, nx, true, true).
+  exists nx, net_pipe_run p xs None (length xs) = Some (sem p xs, nx, true, true).
 Proof.
   intros Hu Hall. pose proof (ustages_ok Hu Hall) as Hok.
-  destruct (@pipeline_completes (map VN xs) us Hok) as (m & N & Hm & HN & Hr & Hp & _ & nf & Hnf & Hend & Hcalls).
+  destruct (@pipeline_completes (it_of xs None) us Hok (map VN xs) (it_of_fin xs))
+    as (m & N & Hm & HN & Hr & Hp & _ & nf & Hnf & Hend & Hcalls).
+  rewrite map_length in Hm.
   unfold net_pipe_run. rewrite Hu. cbv zeta.
-  assert (E : taus (steps_max (map VN xs) us) (net_step (NP (map VN xs) us) (kick us)) = N).
-  { replace (steps_max (map VN xs) us) with (m + (steps_max (map VN xs) us - m)) by lia.
+  assert (E : taus (steps_max us (length xs)) (net_step (NP (it_of xs None) us) (kick us)) = N).
+  { replace (steps_max us (length xs)) with (m + (steps_max us (length xs) - m)) by lia.
     rewrite taus_add, <- HN. now apply taus_idle. }
   rewrite E, Hnf, Hend, Hp, Hcalls, (@ustages_sem p us xs Hu), map_map. cbn [nat_of_val].
   rewrite map_id. eexists. reflexivity.
 Qed.
 Print Assumptions net_pipe_run_correct.
 
-(** non-vacuity: pipe!(from_iter([1;2;3;4;5]), map(+1), filter(even), take(2), for_each) *)
+Lemma count_nexts_nexts tr : count_nexts tr = length (Inv_from_iter.nexts tr).
+Proof.
+  unfold count_nexts. induction tr as [|e tr IH]; cbn; [reflexivity|].
+  destruct e as [i|c| | |[r|v|s b|s]|]; cbn; rewrite ?IH; reflexivity.
+Qed.
+
+(** ... and over ANY input - unbounded too - when a take follows stages that pass every datum on
+    (map, scan): the runner ends at rest within the bound computed from the take's count alone,
+    for_each has seen the end, and next() was called at most n times *)
+Theorem net_pipe_run_take_stops p1 n p2 xs inf us :
+  ustages_of (p1 ++ StTake n :: p2) = Some us ->
+  Forall (fun s => match s with StTake k => 1 <= k | _ => True end) (p1 ++ StTake n :: p2) ->
+  Forall (fun s => match s with StMap _ _ | StScan _ _ => True | _ => False end) p1 ->
+  exists calls nx, net_pipe_run (p1 ++ StTake n :: p2) xs inf n = Some (calls, nx, true, true) /\ nx <= n.
+Proof.
+  intros Hu Hall Hone. pose proof (ustages_ok Hu Hall) as Hok.
+  (* split the translated stage list at the take *)
+  assert (Hsplit : exists u1 u2, us = u1 ++ UTake n :: u2 /\ Forall oneshot u1).
+  { clear Hall Hok. revert us Hu. induction p1 as [|s p1 IH]; intros us Hu; cbn in Hu.
+    - destruct (ustages_of p2) as [u2|]; [|discriminate]. inversion Hu.
+      exists [], u2. split; [reflexivity | constructor].
+    - inversion Hone as [|? ? Hs Hp1]; subst.
+      destruct (ustage_of s) as [u|] eqn:Eu; [|discriminate].
+      destruct (ustages_of (p1 ++ StTake n :: p2)) as [us'|] eqn:Ep; [|discriminate].
+      inversion Hu; subst us. destruct (IH Hp1 us' eq_refl) as (u1 & u2 & -> & Ho).
+      exists (u :: u1), u2. split; [reflexivity|]. constructor; [|exact Ho].
+      destruct s; try contradiction; cbn in Eu; inversion Eu; exact I. }
+  destruct Hsplit as (u1 & u2 & Hus & Ho).
+  destruct (@take_stops (it_of xs inf) us Hok u1 u2 n Hus Ho)
+    as (m & N & Hm & HN & Hr & Hp & nf & n0 & Hnf & Hn0 & Hend & _ & Hnx).
+  unfold net_pipe_run. rewrite Hu. cbv zeta.
+  assert (E : taus (steps_max us n) (net_step (NP (it_of xs inf) us) (kick us)) = N).
+  { replace (steps_max us n) with (m + (steps_max us n - m)) by lia.
+    rewrite taus_add, <- HN. now apply taus_idle. }
+  rewrite E, Hnf, Hn0, Hend, Hp. do 2 eexists. split; [reflexivity|].
+  now rewrite count_nexts_nexts.
+Qed.
+Print Assumptions net_pipe_run_take_stops.
+
+(** non-vacuity: pipe!(from_iter([1;2;3;4;5]), map(+1), filter(even), take(2), for_each), and
+    pipe!(from_iter(0..), map(2x+1), take(3), for_each) over an unbounded iterator *)
 Example net_pipe_run_example :
-  net_pipe_run [StMap 1 1; StFilter 2 0; StTake 2] [1; 2; 3; 4; 5] = Some ([2; 4], 3, true, true).
+  net_pipe_run [StMap 1 1; StFilter 2 0; StTake 2] [1; 2; 3; 4; 5] None 5 = Some ([2; 4], 3, true, true).
+Proof. vm_compute. reflexivity. Qed.
+
+Example net_pipe_run_unbounded_example :
+  net_pipe_run [StMap 2 1; StTake 3] [] (Some 0) 3 = Some ([1; 3; 5], 3, true, true).
 Proof. vm_compute. reflexivity. Qed.
